@@ -738,7 +738,13 @@ class C15(Check):
                 return None
 
             for keep in range(dim):
-                bad = compare_once(keep)
+                try:
+                    bad = compare_once(keep)
+                except (ValueError, TypeError, IndexError):
+                    # the wrapper is tied to generation-time arrays of one shape (penalisation grids, filter
+                    # buffers): it cannot be applied to a cut-out block
+                    res.probe("blocking_probe_not_applicable")
+                    return
                 if bad:
                     # compiled kernels with real OpenMP threads: the scheduler is libgomp's, not the simulator's, so
                     # a mismatch only counts when it shows on a second, independent attempt (as in the compiled
